@@ -58,8 +58,9 @@ structure Faults where
 
 inductive Kind where
   | tracked   -- elements with identity and a destructor
-  | byte      -- `u8`: no identity, no destructor
+  | byte      -- `u8` / `()`: no identity, no destructor
   | zst       -- zero-sized type with a counting destructor
+  | plain     -- elements with identity but without a destructor (`needs_drop` is false)
   deriving DecidableEq, Repr
 
 structure Sys where
@@ -94,7 +95,8 @@ end M
   (.ok (), if s.kind = .byte ∧ e ≠ .alloc then s else { s with log := e :: s.log })
 /-- a fresh element id (identities exist only for tracked elements) -/
 @[inline] def fresh : M Nat := fun s =>
-  if s.kind = .tracked then (.ok s.next, { s with next := s.next + 1 }) else (.ok 0, s)
+  if s.kind = .tracked ∨ s.kind = .plain then (.ok s.next, { s with next := s.next + 1 })
+  else (.ok 0, s)
 
 /-- run `a`; run `fin` whatever happened (a destructor guard / unwinding); a panic of `a` is
 re-raised afterwards; a second panic while unwinding aborts. -/
@@ -209,7 +211,7 @@ def setItems (f : Nat → Cell) : M Unit := do
 
 /-- `Drop::drop` of one element (user code; may panic once) -/
 def dropElem (e : Elem) : M Unit := fun s =>
-  if s.kind = .byte then (.ok (), s) else
+  if s.kind = .byte ∨ s.kind = .plain then (.ok (), s) else
   let (k, boom) := tick s.faults.drop
   let s' := { s with log := .dropped e.id :: s.log, faults := { s.faults with drop := k } }
   if boom then (.error (.user "drop"), s') else (.ok (), s')
@@ -219,7 +221,7 @@ def cloneElem (e : Elem) : M Elem := fun s =>
   let (k, boom) := tick s.faults.clone
   let s1 := { s with faults := { s.faults with clone := k } }
   if boom then (.error (.user "clone"), s1) else
-  if s.kind = .tracked then
+  if s.kind = .tracked ∨ s.kind = .plain then
     (.ok ⟨s.next, e.val⟩, { s1 with next := s.next + 1, log := .cloned s.next e.id :: s.log })
   else (.ok e, s1)
 
@@ -230,7 +232,7 @@ def produceElem (which : String) : M Elem := fun s =>
   let f' := if which = "call" then { s.faults with call := k } else { s.faults with next := k }
   let s1 := { s with faults := f' }
   if boom then (.error (.user which), s1) else
-  if s.kind = .tracked then
+  if s.kind = .tracked ∨ s.kind = .plain then
     (.ok ⟨s.next, s.next⟩, { s1 with next := s.next + 1, log := .given s.next :: s.log })
   else (.ok ⟨0, 0⟩, s1)
 
